@@ -215,7 +215,10 @@ def gen_conn(r, g, population, cfg):
         datas.append(gen.encode_frame(d))
     for _ in range(nframes):
         cfg['marker'] += 1
-        if cfg.get('long') and r.random() < 0.6:
+        if frames and r.random() < 0.08:
+            # the very same frame again (identical bytes back to back)
+            d, data = frames[-1], datas[-1]
+        elif cfg.get('long') and r.random() < 0.6:
             d, data = table_heavy_frame(r, g, cfg['marker'])
         else:
             d, data = encodable_frame(g, cfg['marker'], mix,
@@ -249,9 +252,14 @@ def gen_conn(r, g, population, cfg):
     faults = []
     if population == 'long':
         # a few damaged frames early in a long stream of valid ones
-        for _ in range(r.choice((0, 1, 2, 3))):
-            k = r.randrange(max(1, len(datas) // 3))
-            if len(datas[k]) >= 8:
+        heavy = r.random() < 0.4
+        nf = r.randint(len(datas) // 5, len(datas) // 2) if heavy \
+            else r.choice((0, 1, 2, 3))
+        for _ in range(nf):
+            k = r.randrange(len(datas)) if heavy else \
+                r.randrange(max(1, len(datas) // 3))
+            if len(datas[k]) >= 8 and not any(f['frame'] == k
+                                              for f in faults):
                 faults.append(corrupt_fault(r, k, datas[k],
                                             cfg['corrupt_kinds']))
     if population == 'corrupt':
@@ -418,6 +426,31 @@ def gen_trace(rng, check, population, tier='quick'):
         maxlen = 2048 if tier == 'quick' else 140000
         for _ in range(r.randint(1, 3)):
             conns.append(gen_sweep_conn(r, g, cfg, maxlen))
+    elif population == 'threads':
+        # every connection is a real thread (producer + receiver); few
+        # method classes per run so that threads meet in the same code
+        from sim import gen_b
+        g.method_pool = r.sample(sorted(gen.classes()), r.choice([1, 2, 3, 6]))
+        cfg['nframes'] = r.choice([(1, 3), (2, 6), (4, 12)])
+        cfg['max_body'] = 64
+        cfg['corrupt_kinds'] = sorted(set(CORRUPT_KINDS))
+        if r.random() < 0.3:
+            cfg['faults'].discard('close')
+        nthreads = r.choice((2, 2, 3, 4))
+        for _ in range(nthreads):
+            conns.append(gen_conn(r, g, 'frag' if check != 'C09'
+                                  else r.choice(['frag', 'corrupt']), cfg))
+        est = sum(len(c['frames']) for c in conns) * 400
+        sched_list, policy = gen_b.gen_schedule(r, nthreads, est)
+        tr = {'world': 'A', 'check': check, 'population': population,
+              'conns': conns, 'threaded': True, 'schedule': sched_list,
+              'policy': policy,
+              'exit_picks': [r.randrange(8) for _ in range(4)],
+              'first': r.randrange(nthreads)}
+        if r.random() < 0.6:
+            tr['novel'] = {'every': r.choice([1, 1, 2, 3, 5]),
+                           'picks': [r.randrange(8) for _ in range(6)]}
+        return tr
     elif population in ('truncsweep', 'bytesweep'):
         conns.append(gen_faultsweep_conn(r, g, cfg, population, tier))
     elif population == 'long':
